@@ -8,7 +8,11 @@ HARNESSES = [
     ("c02", "rcfork", ()),
     ("c03", "rcfork", ()),
     ("c05", "rcfork", ()),
+    ("c06", "rcfork", ()),
     ("c08", "rcfork", ()),
+    ("fz_xml", "fuzz", ()),
+    ("fz_xml_file", "fuzz", ("-DVIA_FILE=1",), "fz_xml"),
+    ("fz_diffxml", "fuzz", ()),
     ("c12", "rcfork", ()),
     ("c13", "rcfork", ()),
     ("c14", "rcfork", ()),
@@ -92,7 +96,7 @@ def replay_one(ctx, path):
 
 
 # engine cfg.name -> source file name
-ALIASES = {"c01_load": "c01", "c02_history": "c02", "c03_bitmap": "c03", "c05_xml": "c05", "c08_restrict": "c08", "c12_dup": "c12", "c13_distances": "c13", "c14_memattrs": "c14", "c15_cpukinds": "c15", "c16_diff": "c16", "c04_strings": "c04"}
+ALIASES = {"c01_load": "c01", "c02_history": "c02", "c03_bitmap": "c03", "c05_xml": "c05", "c06_xmlmut": "c06", "c08_restrict": "c08", "c12_dup": "c12", "c13_distances": "c13", "c14_memattrs": "c14", "c15_cpukinds": "c15", "c16_diff": "c16", "c04_strings": "c04"}
 
 
 def C01(ctx):
@@ -167,4 +171,40 @@ def C05(ctx):
     std_check_parallel(ctx, jobs)
 
 
-PROPS = {"C01": C01, "C05": C05, "C16": C16, "C14": C14, "C13": C13, "C15": C15, "C08": C08, "C12": C12, "C02": C02, "C03": C03, "C04": C04}
+def xml_seed_dir(ctx, maxsize=100000):
+    """seed corpus for the XML fuzz targets: small corpus files x 4 configuration bytes"""
+    import glob, shutil
+    d = os.path.join(ctx.work, "xmlseeds")
+    os.makedirs(d, exist_ok=True)
+    seeds = []
+    for f in sorted(glob.glob(V.REPO + "/tests/hwloc/xml/*.xml")):
+        if os.path.getsize(f) > maxsize:
+            continue
+        body = open(f, "rb").read()
+        for cfg in (0, 9, 18, 27):
+            sd = bytes([cfg]) + body
+            seeds.append(sd)
+            with open(os.path.join(d, "%s.%d" % (os.path.basename(f), cfg)), "wb") as fh:
+                fh.write(sd)
+    return d, seeds
+
+
+def C06(ctx):
+    jobs = []
+    for i in ("0", "1"):
+        jobs.append(dict(harness="c06", aliases=["c06_xmlmut"], tag="c06-imp%s" % i, cases=(250, 8000), workers=(4, 5), max_ops=6, env={"HWLOC_LIBXML_IMPORT": i, "HWLOC_LIBXML_EXPORT": i}))
+    std_check_parallel(ctx, jobs)
+    sd, seeds = xml_seed_dir(ctx)
+    os.makedirs(os.path.join(ctx.work, "fztmp"), exist_ok=True)
+    rule = "libFuzzer bytes = 1 configuration byte + XML buffer (NUL appended, exactly-sized heap block); two-stage oracle inside the target; non-trivial = load succeeded with a consistent topology and the read-only battery ran (distinct inputs counted in-target); inconsistent loads of non-export documents are counted under F-C06-h"
+    dictp = os.path.join(V.VERIF, "support", "xml.dict")
+    diffseeds = [b'<?xml version="1.0" encoding="UTF-8"?>\n<!DOCTYPE topologydiff SYSTEM "hwloc2-diff.dtd">\n<topologydiff refname="r">\n  <diff type="0" obj_depth="1" obj_index="0" obj_attr_type="1" obj_attr_name="" obj_attr_oldvalue="nm" obj_attr_newvalue="nm+"/>\n  <diff type="0" obj_depth="3" obj_index="2" obj_attr_type="2" obj_attr_name="k0" obj_attr_oldvalue="v2" obj_attr_newvalue="v3"/>\n  <diff type="0" obj_depth="-3" obj_index="0" obj_attr_type="0" obj_attr_index="0" obj_attr_oldvalue="1073741824" obj_attr_newvalue="4096"/>\n</topologydiff>\n']
+    run_fuzz_targets(ctx, [
+        dict(name="fz_xml", tag="fz_xml_nolibxml", seconds=(25, 900), workers=(5, 6), max_len=131072, rule=rule, seeds=seeds, dict=dictp, hang_is_violation=True, env={"HWLOC_LIBXML_IMPORT": "0", "HWLOC_LIBXML_EXPORT": "0", "VERIF_SEED_DIR": sd}),
+        dict(name="fz_xml", tag="fz_xml_libxml", seconds=(25, 900), workers=(4, 5), max_len=131072, rule=rule, seeds=seeds, dict=dictp, hang_is_violation=True, env={"HWLOC_LIBXML_IMPORT": "1", "HWLOC_LIBXML_EXPORT": "1", "VERIF_SEED_DIR": sd}),
+        dict(name="fz_xml_file", seconds=(25, 600), workers=(2, 2), max_len=131072, rule=rule, seeds=seeds, dict=dictp, hang_is_violation=True, env={"HWLOC_LIBXML_IMPORT": "0", "VERIF_SEED_DIR": sd, "VERIF_FUZZ_TMP": os.path.join(ctx.work, "fztmp")}),
+        dict(name="fz_diffxml", seconds=(25, 600), workers=(3, 3), max_len=8192, seeds=diffseeds, dict=dictp, hang_is_violation=True, rule="libFuzzer bytes -> hwloc_topology_diff_load_xmlbuffer; non-trivial = the diff loaded (then walked, re-exported, re-loaded, applied with rollback check)"),
+    ])
+
+
+PROPS = {"C01": C01, "C06": C06, "C05": C05, "C16": C16, "C14": C14, "C13": C13, "C15": C15, "C08": C08, "C12": C12, "C02": C02, "C03": C03, "C04": C04}
